@@ -51,6 +51,8 @@ def run(tier, seed):
                  "does not decide the linear step budget or heap peak as numbers; termination of read-driven loops assumes the "
                  "stream reports exhaustion (finite input), and for endless pm1 input rests on the declared-length clamp (C14.R2).")
     with Context(tier) as ctx:
+        from .. import selfcheck
+        selfcheck.run(ctx, rep, ['loops'])
         mod = ctx.plain()
         cg = CallGraph(mod)
         own = Ownership(mod, cg)
